@@ -7,7 +7,7 @@ import numpy as np
 from native import specval
 
 
-def _files(unit, rng):
+def _files(unit, rng, any_rpc=False):
     """(file bytes, variables of the specification, callable running the real code) for one random well-formed input"""
     import fsspec
 
@@ -52,7 +52,7 @@ def _files(unit, rng):
                "scansar_burst_data_information.number_of_overlap_lines_with_adjacent_bursts": blank()}
         data = synth.image_file(px, level=level, year=int(rng.integers(2014, 2050)), doy=int(rng.integers(1, 366)),
                                 ms0=int(rng.integers(0, 86000000)), extra_hdr=hdr, rng=rng)
-        rpc = nl + int(rng.integers(0, 3))
+        rpc = int(rng.integers(1, nl + 3)) if any_rpc else nl + int(rng.integers(0, 3))
 
         def real():
             import io
@@ -68,7 +68,7 @@ def _files(unit, rng):
     raise KeyError(unit)
 
 
-def check_unit(unit, trials=20, seed=0):
+def check_unit(unit, trials=20, seed=0, any_rpc=False):
     """(ok, evaluations, first failure or None)"""
     from pyvc import tables
 
@@ -85,7 +85,7 @@ def check_unit(unit, trials=20, seed=0):
 
     n = 0
     for _ in range(trials):
-        data, variables, real, prefix = _files(unit, rng)
+        data, variables, real, prefix = _files(unit, rng, any_rpc)
         variables = dict(variables, size_of_file_100=len(data))
         cmp = specval.Comparer({100: data}, variables, parse)
         n += 1
